@@ -13,6 +13,7 @@ from __future__ import annotations
 
 import ast
 
+from pv.q import text as qtext
 from pv.model import AnalysisError, walk_no_nested, params, UNKNOWN
 from pv.norm import Normalizer, single_defs
 from pv.q import has_stmt, has_if, find_if, returns, body_texts
@@ -41,19 +42,19 @@ def rule_a(model, rep):
             [ast.unparse(x) for x in body[0].body] == ["return record"]
         rep.check(ok2, R, site(CTX, "_CryptConfig.identify_record"), ast.unparse(body[0])[:80], "the first record whose identify() accepts the hash is returned",
                   witness="a hash is attributed to a later scheme although an earlier configured scheme claims it (or the loop keeps the last match)")
-    t = ast.unparse(fn)
-    rep.check("raise exc.UnknownHashError" in t and "if not required:\n        return None" in t, R, site(CTX, "_CryptConfig.identify_record"), "None / UnknownHashError",
+    t = qtext(fn)
+    rep.check(t.loose("raise exc.UnknownHashError") and t.loose("if not required:\n        return None"), R, site(CTX, "_CryptConfig.identify_record"), "None / UnknownHashError",
               "no match: None when not required, UnknownHashError otherwise")
     fn = model.func(CTX, "_CryptConfig._get_record_list")
-    t = ast.unparse(fn)
+    t = qtext(fn)
     rep.check("[self.get_record(scheme, category) for scheme in self.schemes]" in t, R, site(CTX, "_CryptConfig._get_record_list"),
               "[self.get_record(scheme, category) for scheme in self.schemes]", "the record list follows the configured scheme order, resolved for the category",
               witness="identification order differs from the configured scheme order")
     fn = model.func(CTX, "_CryptConfig._init_scheme_list")
-    t = ast.unparse(fn)
+    t = qtext(fn)
     rep.check("handlers.append(handler)\n        schemes.append(scheme)" in t and "self.schemes = tuple(schemes)" in t, R, site(CTX, "_CryptConfig._init_scheme_list"),
               "append in input order", "scheme order is the order given by the application")
-    rep.check("if scheme in schemes:\n            raise KeyError" in t, R, site(CTX, "_CryptConfig._init_scheme_list"), "duplicate -> KeyError", "duplicate scheme names are refused")
+    rep.check(t.loose("if scheme in schemes:\n            raise KeyError"), R, site(CTX, "_CryptConfig._init_scheme_list"), "duplicate -> KeyError", "duplicate scheme names are refused")
 
 
 def rule_b(model, rep):
@@ -64,7 +65,7 @@ def rule_b(model, rep):
     r1 = _rets(nu)
     rep.check(r1 == [pred], R, site(CTX, "CryptContext.needs_update"), "; ".join(r1), f"needs_update() == {pred}",
               witness="a deprecated-scheme hash (or one outside the rounds window) is not flagged")
-    iffs = [n for n in walk_no_nested(vu) if isinstance(n, ast.If) and "needs_update" in ast.unparse(n.test)]
+    iffs = [n for n in walk_no_nested(vu) if isinstance(n, ast.If) and qtext(n.test).loose("needs_update")]
     ok = len(iffs) == 1 and ast.unparse(iffs[0].test) == pred
     rep.check(ok, R, site(CTX, "CryptContext.verify_and_update"), ast.unparse(iffs[0].test) if iffs else "<none>",
               "verify_and_update() uses the same update predicate as needs_update()",
@@ -84,22 +85,22 @@ def rule_b(model, rep):
     # record selection
     for q in ("CryptContext.needs_update", "CryptContext.verify", "CryptContext.verify_and_update"):
         fn = model.func(CTX, q)
-        rep.check("record = self._get_or_identify_record(hash, scheme, category)" in ast.unparse(fn), R, site(CTX, q), "record = self._get_or_identify_record(hash, scheme, category)",
+        rep.check("record = self._get_or_identify_record(hash, scheme, category)" in qtext(fn), R, site(CTX, q), "record = self._get_or_identify_record(hash, scheme, category)",
                   "the record is identified within the requested category")
     fn = model.func(CTX, "CryptContext.hash")
-    t = ast.unparse(fn)
+    t = qtext(fn)
     rep.check("record = self._get_record(scheme, category)" in t and t.rstrip().endswith("return record.hash(secret, **kwds)"), R, site(CTX, "CryptContext.hash"),
               "record = self._get_record(scheme, category); return record.hash(secret, **kwds)", "new hashes come from the category's (default) record",
               witness="hash(category=...) ignores the category's default scheme / cost")
     fn = model.func(CTX, "CryptContext._get_or_identify_record")
-    t = ast.unparse(fn)
+    t = qtext(fn)
     rep.check("return self._get_record(scheme, category)" in t and "return self._identify_record(hash, category)" in t, R, site(CTX, "CryptContext._get_or_identify_record"),
               "explicit scheme -> record; else identify within category", "record lookup honours the category")
     fn = model.func(CTX, "CryptContext.verify")
     rep.check(ast.unparse(fn.body[-1]) == "return record.verify(secret, hash, **kwds)", R, site(CTX, "CryptContext.verify"), ast.unparse(fn.body[-1]), "verify() delegates to the identified record")
     # get_record: scheme None -> default scheme of the category; category falls back to the base record
     fn = model.func(CTX, "_CryptConfig.get_record")
-    t = ast.unparse(fn)
+    t = qtext(fn)
     rep.check("default = self.default_scheme(category)" in t and "self.get_record(default, category)" in t, R, site(CTX, "_CryptConfig.get_record"),
               "scheme=None -> default_scheme(category)", "the default record is the category's default scheme")
     rep.check("record = cache[scheme, category] = cache[scheme, None]" in t, R, site(CTX, "_CryptConfig.get_record"), "fallback to (scheme, None)",
@@ -124,12 +125,12 @@ def rule_c(model, rep):
     for q, attr in ((UH + ":ParallelismMixin", "parallelism"), ("passlib.handlers.scrypt:scrypt", "block_size"), ("passlib.handlers.bcrypt:bcrypt_sha256", "version")):
         un, cn = q.split(":")
         fn = model.func(un, cn + "._calc_needs_update")
-        t = ast.unparse(fn)
+        t = qtext(fn)
         want = f"self.{attr} != type(self).{attr}" if attr != "version" else "self.version < type(self).version"
         rep.check(f"if {want}:\n        return True" in t and "return super()._calc_needs_update(**kwds)" in t, R, site(un, cn + "._calc_needs_update"), want,
                   f"a hash whose {attr} differs from the configured one is flagged; otherwise the chain continues")
     fn = model.func(UH, "GenericHandler.needs_update")
-    t = ast.unparse(fn)
+    t = qtext(fn)
     rep.check("self = cls.from_string(hash)" in t and "return self._calc_needs_update(secret=secret, **kwds)" in t, R, site(UH, "GenericHandler.needs_update"),
               "parse, then _calc_needs_update", "needs_update parses the hash and asks the mixin chain")
 
@@ -160,9 +161,9 @@ def rule_d(model, rep):
             last_i, last_txt = mods[-1]
             guard = None
             for j, st in enumerate(g.body):
-                if j > last_i and isinstance(st, ast.If) and any(k in ast.unparse(st.test) for k in ("rounds > mx", "rounds > cls.max", "rounds > max")):
+                if j > last_i and isinstance(st, ast.If) and any(qtext(st.test).loose(k) for k in ("rounds > mx", "rounds > cls.max", "rounds > max")):
                     guard = j
-                if j > last_i and "_clip_to_desired_rounds(rounds)" in ast.unparse(st):
+                if j > last_i and "_clip_to_desired_rounds(rounds)" in qtext(st):
                     guard = j
             rep.check(guard is not None, R, s, f"last increase `{last_txt}`; bound check after it: {'statement %d' % guard if guard is not None else 'none'}",
                       "after the generator last raises the value it re-checks the configured maximum (max_desired_rounds / max_rounds)",
@@ -184,7 +185,7 @@ def rule_e(model, rep):
     rep.check("allowed_settings = self.expand_settings(self.get_base_handler(scheme))" in t and "for key in set(kwds).difference(allowed_settings):\n    kwds.pop(key)" in t, R,
               site(CTX, "_CryptConfig.get_scheme_options_with_flag"), "filter 'all' options by the handler's settings", "global options a handler does not support are dropped, not passed")
     fn = model.func(CTX, "_CryptConfig.expand_settings")
-    t = ast.unparse(fn)
+    t = qtext(fn)
     ok = "setting_kwds = handler.setting_kwds" in t and "setting_kwds += uh.HasRounds.using_rounds_kwds" in t and t.rstrip().endswith("return setting_kwds")
     rep.check(ok, R, site(CTX, "_CryptConfig.expand_settings"), t.split("\n", 1)[-1].replace("\n", " ; ")[:160],
               "the allowed settings of a handler are its own setting_kwds, *extended* by the rounds keywords when it has rounds",
@@ -192,32 +193,32 @@ def rule_e(model, rep):
                       "over-long passwords are truncated although the policy forbids it")
     # deprecated resolution
     fn = model.func(CTX, "_CryptConfig.is_deprecated_with_flag")
-    t = ast.unparse(fn)
+    t = qtext(fn)
     rep.check("if 'auto' in source:\n            return scheme != self.default_scheme(cat)" in t and "return scheme in source" in t, R, site(CTX, "_CryptConfig.is_deprecated_with_flag"),
               "auto -> scheme != default_scheme(cat); else membership", "deprecated='auto' means every scheme but the category's default",
               witness="with deprecated='auto' the default scheme itself is flagged, or a non-default one is not")
     rep.check("source = depmap.get(cat, depmap.get(None))" in t, R, site(CTX, "_CryptConfig.is_deprecated_with_flag"), "category list falls back to the global list", "category inherits the global deprecated list")
     fn = model.func(CTX, "_CryptConfig._init_default_schemes")
-    t = ast.unparse(fn)
+    t = qtext(fn)
     rep.check(has_if(fn, "scheme not in deps", ["default_map[None] = scheme", "break"]), R, site(CTX, "_CryptConfig._init_default_schemes"),
               "first non-deprecated scheme", "without an explicit default the first non-deprecated scheme is the default")
     rep.check(has_if(fn, "default in deps", ["raise ValueError('default scheme cannot be deprecated')"]), R, site(CTX, "_CryptConfig._init_default_schemes"),
               "default in deps -> ValueError", "a deprecated default is refused")
     rep.check("cdeps = dep_map.get(cat, deps)" in t and "cdefault = default_map.get(cat, default)" in t, R, site(CTX, "_CryptConfig._init_default_schemes"), "category fallbacks", "categories inherit default and deprecated list")
     fn = model.func(CTX, "_CryptConfig.default_scheme")
-    t = ast.unparse(fn)
+    t = qtext(fn)
     rep.check("return defaults[category]" in t and t.rstrip().endswith("return defaults[None]"), R, site(CTX, "_CryptConfig.default_scheme"), "category default, else global", "category default falls back to the global one")
     # record creation passes deprecated flag
     fn = model.func(CTX, "_CryptConfig._get_record_options_with_flag")
-    t = ast.unparse(fn)
+    t = qtext(fn)
     rep.check("if value:\n        kwds['deprecated'] = True" in t, R, site(CTX, "_CryptConfig._get_record_options_with_flag"), "deprecated flag into record options", "records carry their deprecated flag")
     fn = model.func(CTX, "_CryptConfig._init_records")
-    t = ast.unparse(fn)
+    t = qtext(fn)
     rep.check(has_if(fn, "cat is None or has_cat_options", ["records[scheme, cat] = self._create_record(handler, cat, **kwds)"]), R, site(CTX, "_CryptConfig._init_records"),
               "record per (scheme, category with own options)", "a category record exists exactly when the category changes something")
     # rounds alias
     fn = model.func(UH, "HasRounds.using")
-    t = ast.unparse(fn)
+    t = qtext(fn)
     rep.check("if min_desired_rounds is None:\n            min_desired_rounds = rounds" in t and "if max_desired_rounds is None:\n            max_desired_rounds = rounds" in t
               and "if default_rounds is None:\n            default_rounds = rounds" in t, R, site(UH, "HasRounds.using"), "rounds= fills min, max, default", "`rounds=` pins the cost")
 
@@ -230,19 +231,19 @@ def rule_f(model, rep):
     fn = model.func(L, "CryptContext._deprecated_schemes")
     rep.check("self._schemes[1:]" in _rets(fn), R, site(L, "CryptContext._deprecated_schemes"), "; ".join(_rets(fn)), "deprecated = all other schemes")
     fn = model.func(L, "CryptContext.hash")
-    t = ast.unparse(fn)
+    t = qtext(fn)
     rep.check("scheme = self._default_scheme" in t and "return scheme.hash(secret=secret)" in t, R, site(L, "CryptContext.hash"), "default scheme hashes", "hash() uses the first scheme")
     fn = model.func(L, "CryptContext.verify")
     rep.check(_rets(fn) == ["any((scheme.verify(secret=secret, hash=hash) for scheme in self._schemes))"], R, site(L, "CryptContext.verify"), "; ".join(_rets(fn)),
               "verify() accepts a match by any configured scheme")
     fn = model.func(L, "CryptContext.needs_update")
-    t = ast.unparse(fn)
+    t = qtext(fn)
     ok = "scheme for scheme in self._schemes if scheme not in self._deprecated_schemes" in t and _rets(fn) == ["all((not scheme.identify(hash) for scheme in schemes))"]
     rep.check(ok, R, site(L, "CryptContext.needs_update"), "; ".join(_rets(fn)),
               "needs_update is True exactly when no non-deprecated scheme identifies the hash (format only, not cost)",
               witness="the libpass context asks for an update of a first-scheme hash made at another cost, or accepts a deprecated scheme's hash")
     fn = model.func(L, "CryptContext._validate_init")
-    rep.check("if not self._schemes:\n        raise ValueError" in ast.unparse(fn), R, site(L, "CryptContext._validate_init"), "empty -> ValueError", "an empty scheme list is refused")
+    rep.check(qtext(fn).loose("if not self._schemes:\n        raise ValueError"), R, site(L, "CryptContext._validate_init"), "empty -> ValueError", "an empty scheme list is refused")
 
 
 def run(model, rep):
